@@ -921,7 +921,13 @@ func (ea ExpressionAttribute) formatExpression() (exp []string) {
 	}
 
 	// Return.
-	return lines[1 : len(lines)-1]
+	exp = lines[1 : len(lines)-1]
+	if len(exp) == 1 {
+		// gofmt joined the expression onto one line, which is written inline, without the
+		// indentation it had inside the slice literal.
+		exp[0] = strings.TrimSpace(exp[0])
+	}
+	return exp
 }
 
 func (ea ExpressionAttribute) Write(w io.Writer, indent int) (err error) {
